@@ -81,7 +81,15 @@ def run(res, tier, seed):
         bad_path = os.path.join(d, "malformed.json")
         open(bad_path, "w").write("{ this is not json")
         missing = os.path.join(d, "missing.json")
-        FILES = {None: (shipped, True), copy_path: (shipped, True), mod_path: (mod, False), bad_path: (None, None), missing: (None, None)}
+        # a user file that lists only some spacecraft: the others are unknown THERE (KeyError), whatever was loaded before
+        part_names = [names[0], names[len(names) // 2], "noaa19"]
+        part = {k: copy.deepcopy(mod[k]) for k in part_names}
+        for k in part_names:
+            part[k]["channel_1"]["s0"] = 0.25
+        part_path = os.path.join(d, "partial.json")
+        json.dump(part, open(part_path, "w"))
+        FILES = {None: (shipped, True), copy_path: (shipped, True), mod_path: (mod, False), bad_path: (None, None), missing: (None, None),
+                 part_path: (part, False)}
         # a file that is REWRITTEN in place between requests: the coefficients follow its content, not its path
         rw_path = os.path.join(d, "rewritten.json")
         mod2 = copy.deepcopy(shipped)
@@ -120,7 +128,9 @@ def run(res, tier, seed):
             rw_state = None
             for k in range(rng.randint(6, 14)):
                 sc = rng.choice(names)
-                f = rng.choice([None, None, copy_path, mod_path, mod_path, bad_path, missing, rw_path, rw_path])
+                f = rng.choice([None, None, copy_path, mod_path, mod_path, bad_path, missing, rw_path, rw_path, part_path, part_path])
+                if f == part_path and rng.random() < 0.4:
+                    sc = rng.choice(part_names)
                 if prev and rng.random() < 0.5:
                     sc, f = prev[0], (prev[1] if rng.random() < 0.7 else f)
                 custom = None
@@ -135,11 +145,11 @@ def run(res, tier, seed):
                 if prev and prev[0] == sc and prev[2] and rng.random() < 0.6:
                     # same spacecraft, same overridden entries as the previous request, but different values
                     keys = list(prev[2])
-                    base = (table or shipped)[sc]
+                    base = (table or shipped).get(sc, shipped[sc])
                     custom = {kk: perturb(rng, kk, base[kk]) for kk in keys}
                 elif rng.random() < 0.5:
                     keys = rng.sample(sorted(shipped[sc].keys()), rng.randint(1, 3))
-                    base = (table or shipped)[sc]
+                    base = (table or shipped).get(sc, shipped[sc])
                     custom = {kk: perturb(rng, kk, base[kk]) for kk in keys}
                 # a caller re-using one overrides dictionary for several requests (e.g. shared reader kwargs in a batch loop)
                 passed = copy.deepcopy(custom)
@@ -153,6 +163,8 @@ def run(res, tier, seed):
                     out = "ok"
                 except (FileNotFoundError, json.JSONDecodeError, OSError, ValueError) as e:
                     c, out = None, "readerror"
+                except KeyError as e:
+                    c, out = None, "unknown"
                 except Exception as e:  # noqa
                     res.violations.append(("request raised %r" % (e,), ctx))
                     hist.append((sc, f, sorted(custom) if custom else None))
@@ -163,9 +175,16 @@ def run(res, tier, seed):
                     passed = copy.deepcopy(custom)
                 if custom:
                     last_passed = (passed, custom)
+                unknown = False
                 if table is None:
                     if out != "readerror":
                         res.violations.append(("unreadable coefficient file did not fail (stale coefficients returned)", dict(ctx, version=c.version)))
+                    ids, ver = None, None
+                elif sc not in table:
+                    unknown = True
+                    if out != "unknown":
+                        res.violations.append(("spacecraft not listed in the requested coefficient file did not fail with KeyError (coefficients of another file returned)",
+                                               dict(ctx, outcome=out, s0=None if c is None else str(c.s0))))
                     ids, ver = None, None
                 else:
                     if out != "ok":
@@ -195,11 +214,14 @@ def run(res, tier, seed):
                 res.add_case((h, k, sc, f, tuple(sorted(custom)) if custom else None), nontriv,
                              dict(spacecraft=sc, file=(os.path.basename(f) if f else "default"), custom=sorted(custom) if custom else None))
                 fid = {None: "None", copy_path: '(Some "copy")', mod_path: '(Some "mod")', bad_path: '(Some "bad")', missing: '(Some "missing")',
+                       part_path: '(Some "part")',
                        rw_path: '(Some "rw%s")' % rw_state}[f]   # the model identifies a file by its content
                 keys_all = list(shipped[sc].keys())
                 cu = "[%s]" % "; ".join('(%s, %d)' % (common.slit(kk), 2 * keys_all.index(kk) + 1) for kk in (custom or {}))
                 reqs_coq.append("(%s, %s, %s)" % (common.slit(sc), cu, fid))
-                if ids is None:
+                if unknown:
+                    outs_coq.append("UnknownSpacecraft _")
+                elif ids is None:
                     outs_coq.append("ReadError _")
                 else:
                     outs_coq.append("Result _ [%s] %s" % ("; ".join("(%s, %d)" % (common.slit(a), b) for a, b in ids),
@@ -244,9 +266,10 @@ def run(res, tier, seed):
         # the table handed to the model: spacecraft -> [(key, 2*i)] for each file
         tbl = "[%s]" % "; ".join("(%s, [%s])" % (common.slit(sc), "; ".join("(%s, %d)" % (common.slit(kk), 2 * i) for i, kk in enumerate(shipped[sc].keys()))) for sc in names)
         vshipped = Calibrator.version_hashs.get(__import__("hashlib").md5(shipped_bytes).hexdigest(), {}).get("name")
-        pre = ("Definition tbl : table Z := %s.\n" % tbl +
+        tbl_part = "[%s]" % "; ".join("(%s, [%s])" % (common.slit(sc), "; ".join("(%s, %d)" % (common.slit(kk), 2 * i) for i, kk in enumerate(shipped[sc].keys()))) for sc in part_names)
+        pre = ("Definition tbl : table Z := %s.\nDefinition tbl_part : table Z := %s.\n" % (tbl, tbl_part) +
                "Definition FS : fs Z := fun f => match f with None => Some (mkContent Z tbl %s) | Some s => "
-               "if orb (String.eqb s \"copy\") (String.eqb s \"rwA\") then Some (mkContent Z tbl %s) else if orb (String.eqb s \"mod\") (orb (String.eqb s \"rwB\") (String.eqb s \"rwC\")) then Some (mkContent Z tbl None) else None end.\n"
+               "if orb (String.eqb s \"copy\") (String.eqb s \"rwA\") then Some (mkContent Z tbl %s) else if orb (String.eqb s \"mod\") (orb (String.eqb s \"rwB\") (String.eqb s \"rwC\")) then Some (mkContent Z tbl None) else if String.eqb s \"part\" then Some (mkContent Z tbl_part None) else None end.\n"
                % (("(Some %s)" % common.slit(vshipped)) if vshipped else "None", ("(Some %s)" % common.slit(vshipped)) if vshipped else "None") +
                "Definition out_eqb (a b : outcome (list (string * Z))) : bool := match a, b with ReadError _, ReadError _ => true | UnknownSpacecraft _, UnknownSpacecraft _ => true "
                "| Result _ x v, Result _ y w => (if list_eq_dec (fun p q : string * Z => match string_dec (fst p) (fst q), Z.eq_dec (snd p) (snd q) with left _, left _ => left _ | _, _ => right _ end) x y then true else false) "
